@@ -80,7 +80,7 @@ func genTxBody(g *gen, gid, ti int) string {
 			parts = append(parts, "s:"+g.txcBound()+":"+g.txcBound())
 		case x < 85:
 			if g.chance(1, 12) {
-				val = "=" // empty value
+				val = g.txcPick("=", "-") // empty value, as an empty or as a nil slice (what the TxPut handler passes for an empty field)
 			}
 			parts = append(parts, "p:"+g.txcKey()+":"+val)
 		default:
@@ -299,6 +299,9 @@ func (x *txcRun) runTx(w *txcWorker, g, i int, body string) *txcTx {
 			op.Res = txcScan(tx, optBound(f[1]), optBound(f[2]))
 		case "p":
 			op.K, op.V = f[1], f[2]
+			if op.V == "-" { // a nil value is the empty value
+				op.V = "="
+			}
 			k, v := unhx(f[1]), unhx(f[2])
 			op.Res = txcErr(tx.Put(k, v))
 			for j := range k { // the caller may reuse its buffers
